@@ -30,12 +30,37 @@ def resolve (o : Onto) : List Nat → Option (List Term)
     | none => none
     | some t => (resolve o is).map (t :: ·)
 
-/-- first minimum of a list of naturals (`Iterator::min`) -/
-def minNat : List Nat → Option Nat
-  | [] => none
-  | x :: xs => match minNat xs with
-    | none => some x
-    | some m => some (if m < x then m else x)
+/-! ### distances and paths (`distance_to_ancestor`, `path_to_ancestor`, `distance_to_term`,
+`path_to_term`)
+
+The recursion over the DAG takes fuel; the loop over the parents (`self.parents().filter_map(..)`)
+is the helper `distParents` / `pathParents`, which resolves the parents in ascending id order
+(`term::Iter`: panic "Invalid HPO-Term" on an id that does not resolve) and keeps the running
+minimum (`Iterator::min` / `min_by_key(Vec::len)`: the FIRST minimum). -/
+
+/-- `Iterator::min` over the `Some` values seen so far (`none` = nothing seen) -/
+def optMin : Option Nat → Option Nat → Option Nat
+  | none, m => m
+  | some d, none => some d
+  | some d, some m => some (if m < d then m else d)
+
+/-- `self.parents().filter_map(|p| p.distance_to_ancestor(other)).min()` -/
+def distParents (rec : Term → Res (Option Nat)) (o : Onto) : List Nat → Res (Option Nat)
+  | [] => .ok none
+  | p :: ps =>
+    match o.get p with
+    | none => .panic
+    | some tp =>
+      match rec tp with
+      | .ok d =>
+        match distParents rec o ps with
+        | .ok m => .ok (optMin d m)
+        | .err e => .err e
+        | .panic => .panic
+        | .diverge => .diverge
+      | .err e => .err e
+      | .panic => .panic
+      | .diverge => .diverge
 
 /-- `distance_to_ancestor`; `none` inside `Res.ok` = not an ancestor. -/
 def distToAnc : Nat → Onto → Term → Nat → Res (Option Nat)
@@ -45,30 +70,35 @@ def distToAnc : Nat → Onto → Term → Nat → Res (Option Nat)
     else if Group.contains t.parents a then .ok (some 1)
     else if !Group.contains t.allParents a then .ok none
     else
-      let rec go : List Nat → List Nat → Res (List Nat)
-        | [], acc => .ok acc.reverse
-        | p :: ps, acc =>
-          match o.get p with
-          | none => .panic
-          | some tp =>
-            match distToAnc fuel o tp a with
-            | .ok (some d) => go ps (d :: acc)
-            | .ok none => go ps acc
-            | .err e => .err e
-            | .panic => .panic
-            | .diverge => .diverge
-      match go t.parents [] with
-      | .ok ds => .ok ((minNat ds).map (· + 1))
+      match distParents (fun tp => distToAnc fuel o tp a) o t.parents with
+      | .ok m => .ok (m.map (· + 1))
       | .err e => .err e
       | .panic => .panic
       | .diverge => .diverge
 
-/-- first shortest list (`min_by_key(Vec::len)` returns the first minimum) -/
-def minByLen : List (List Nat) → Option (List Nat)
-  | [] => none
-  | x :: xs => match minByLen xs with
-    | none => some x
-    | some m => some (if m.length < x.length then m else x)
+/-- first shortest list (`min_by_key(Vec::len)` returns the first minimum): `x` comes before `m` -/
+def firstShorter : Option (List Nat) → Option (List Nat) → Option (List Nat)
+  | none, m => m
+  | some x, none => some x
+  | some x, some m => some (if m.length < x.length then m else x)
+
+/-- `self.parents().filter_map(|p| p.path_to_ancestor(other).map(|x| [p] ++ x)).min_by_key(Vec::len)` -/
+def pathParents (rec : Term → Res (Option (List Nat))) (o : Onto) : List Nat → Res (Option (List Nat))
+  | [] => .ok none
+  | p :: ps =>
+    match o.get p with
+    | none => .panic
+    | some tp =>
+      match rec tp with
+      | .ok x =>
+        match pathParents rec o ps with
+        | .ok m => .ok (firstShorter (x.map (p :: ·)) m)
+        | .err e => .err e
+        | .panic => .panic
+        | .diverge => .diverge
+      | .err e => .err e
+      | .panic => .panic
+      | .diverge => .diverge
 
 /-- `path_to_ancestor`: excludes `self`, includes the ancestor; `[]` for the term itself. -/
 def pathToAnc : Nat → Onto → Term → Nat → Res (Option (List Nat))
@@ -77,83 +107,120 @@ def pathToAnc : Nat → Onto → Term → Nat → Res (Option (List Nat))
     if t.id = a then .ok (some [])
     else if Group.contains t.parents a then .ok (some [a])
     else if !Group.contains t.allParents a then .ok none
-    else
-      let rec go : List Nat → List (List Nat) → Res (List (List Nat))
-        | [], acc => .ok acc.reverse
-        | p :: ps, acc =>
-          match o.get p with
-          | none => .panic
-          | some tp =>
-            match pathToAnc fuel o tp a with
-            | .ok (some x) => go ps ((p :: x) :: acc)
-            | .ok none => go ps acc
-            | .err e => .err e
-            | .panic => .panic
-            | .diverge => .diverge
-      match go t.parents [] with
-      | .ok xs => .ok (minByLen xs)
-      | .err e => .err e
-      | .panic => .panic
-      | .diverge => .diverge
+    else pathParents (fun tp => pathToAnc fuel o tp a) o t.parents
 
 def fuel (o : Onto) : Nat := o.terms.length + 2
 
-/-- per common ancestor: `(ancestor, d(self, anc) + d(other, anc))`, skipping pairs without distance -/
-def commonDists (o : Onto) (a b : Term) : List Nat → Res (List (Nat × Nat))
-  | [] => .ok []
+/-- `distance_to_term`: `all_common_ancestors(other).iter().filter_map(|c| Some(self.d(c)? + other.d(c)?)).min()`
+(the second distance is not evaluated when the first is `None`) -/
+def termDists (o : Onto) (a b : Term) : List Nat → Res (Option Nat)
+  | [] => .ok none
   | c :: cs =>
     match o.get c with
     | none => .panic
     | some _ =>
-      match distToAnc o.fuel o a c, distToAnc o.fuel o b c with
-      | .ok da, .ok db =>
-        match commonDists o a b cs with
-        | .ok rest =>
-          match da, db with
-          | some x, some y => .ok ((c, x + y) :: rest)
-          | _, _ => .ok rest
-        | r => r
-      | .ok _, .err e => .err e
-      | .ok _, .panic => .panic
-      | .ok _, .diverge => .diverge
-      | .err e, _ => .err e
-      | .panic, _ => .panic
-      | .diverge, _ => .diverge
+      match distToAnc o.fuel o a c with
+      | .ok none => termDists o a b cs
+      | .ok (some x) =>
+        match distToAnc o.fuel o b c with
+        | .ok none => termDists o a b cs
+        | .ok (some y) =>
+          match termDists o a b cs with
+          | .ok m => .ok (optMin (some (x + y)) m)
+          | .err e => .err e
+          | .panic => .panic
+          | .diverge => .diverge
+        | .err e => .err e
+        | .panic => .panic
+        | .diverge => .diverge
+      | .err e => .err e
+      | .panic => .panic
+      | .diverge => .diverge
 
 /-- `distance_to_term` -/
 def distToTerm (o : Onto) (a b : Term) : Res (Option Nat) :=
-  match commonDists o a b (a.allCommonAncestorIds b) with
-  | .ok ds => .ok (minNat (ds.map (·.2)))
+  termDists o a b (a.allCommonAncestorIds b)
+
+/-- first pair with minimal second component (`min_by_key(|t| t.1)`): `x` comes before `m` -/
+def firstSmaller : Nat × Nat → Option (Nat × Nat) → Nat × Nat
+  | x, none => x
+  | x, some m => if m.2 < x.2 then m else x
+
+/-- `path_to_term`, first stage: `(ancestor, d(self, anc) + d(other, anc))` for every common ancestor
+(`expect`: panic when a distance is `None`), then `min_by_key` on the sum -/
+def joinPoint (o : Onto) (a b : Term) : List Nat → Res (Option (Nat × Nat))
+  | [] => .ok none
+  | c :: cs =>
+    match o.get c with
+    | none => .panic
+    | some _ =>
+      match distToAnc o.fuel o a c with
+      | .ok none => .panic
+      | .ok (some x) =>
+        match distToAnc o.fuel o b c with
+        | .ok none => .panic
+        | .ok (some y) =>
+          match joinPoint o a b cs with
+          | .ok m => .ok (some (firstSmaller (c, x + y) m))
+          | .err e => .err e
+          | .panic => .panic
+          | .diverge => .diverge
+        | .err e => .err e
+        | .panic => .panic
+        | .diverge => .diverge
+      | .err e => .err e
+      | .panic => .panic
+      | .diverge => .diverge
+
+/-- `path.push(other.id())` unless the path already ends with it -/
+def pushLast (path : List Nat) (b : Nat) : List Nat :=
+  if path.getLast? = some b then path else path ++ [b]
+
+/-- `path_to_term`, second stage: the two upward paths joined at the chosen ancestor `c` -/
+def joinPaths (o : Onto) (a b : Term) (c : Nat) : Res (Option (List Nat)) :=
+  match pathToAnc o.fuel o a c with
+  | .ok (some pa) =>
+    match pathToAnc o.fuel o b c with
+    | .ok (some pb) => .ok (some (pushLast (pa ++ pb.reverse.drop 1) b.id))
+    | .ok none => .panic   -- `expect("other must have a path to its ancestor")`
+    | .err e => .err e
+    | .panic => .panic
+    | .diverge => .diverge
+  | .ok none => .panic     -- `expect("self must have a path to its ancestor")`
   | .err e => .err e
   | .panic => .panic
   | .diverge => .diverge
-
-/-- first pair with minimal second component (`min_by_key(|t| t.1)`) -/
-def minBySnd : List (Nat × Nat) → Option (Nat × Nat)
-  | [] => none
-  | x :: xs => match minBySnd xs with
-    | none => some x
-    | some m => some (if m.2 < x.2 then m else x)
 
 /-- `path_to_term` (as fixed: always joined at the closest common ancestor; `other` is not
 appended a second time when it is the meeting point). -/
 def pathToTerm (o : Onto) (a b : Term) : Res (Option (List Nat)) :=
-  match commonDists o a b (a.allCommonAncestorIds b) with
-  | .ok ds =>
-    match minBySnd ds with
-    | none => .ok none
-    | some m =>
-      match pathToAnc o.fuel o a m.1, pathToAnc o.fuel o b m.1 with
-      | .ok (some pa), .ok (some pb) =>
-        let path := pa ++ (pb.reverse.drop 1)
-        .ok (some (if path.getLast? = some b.id then path else path ++ [b.id]))
-      | .ok _, .ok _ => .panic   -- `expect("... must have a path to its ancestor")`
-      | .diverge, _ => .diverge
-      | _, .diverge => .diverge
-      | _, _ => .panic
+  match joinPoint o a b (a.allCommonAncestorIds b) with
+  | .ok none => .ok none
+  | .ok (some m) => joinPaths o a b m.1
   | .err e => .err e
   | .panic => .panic
   | .diverge => .diverge
+
+/-- `path_to_term` BEFORE the fix (pinned snapshot 8b79950): ancestor / descendant shortcuts first,
+and `other` always appended.  Kept only for `C11_path_shortcut_counterexample`. -/
+def pathToTermPrefix (o : Onto) (a b : Term) : Res (Option (List Nat)) :=
+  if b.parentOf a then pathToAnc o.fuel o a b.id
+  else if a.parentOf b then
+    match pathToAnc o.fuel o b a.id with
+    | .ok (some ts) => .ok (some (ts.reverse.drop 1 ++ [b.id]))
+    | r => r
+  else
+    match joinPoint o a b (a.allCommonAncestorIds b) with
+    | .ok none => .ok none
+    | .ok (some m) =>
+      match pathToAnc o.fuel o a m.1, pathToAnc o.fuel o b m.1 with
+      | .ok (some pa), .ok (some pb) => .ok (some (pa ++ pb.reverse.drop 1 ++ [b.id]))
+      | .diverge, _ => .diverge
+      | _, .diverge => .diverge
+      | _, _ => .panic
+    | .err e => .err e
+    | .panic => .panic
+    | .diverge => .diverge
 
 /-- `is_modifier` -/
 def isModifier (o : Onto) (t : Term) : Bool :=
